@@ -627,6 +627,8 @@ pub fn c08_workspace_v(type_imports: bool) -> (Workspace, usize) {
 
 fn candidates() -> Vec<(&'static str, Option<Class>)> {
     let mut v: Vec<(&'static str, Option<Class>)> = crate::core::alphabet::KEYWORDS.iter().map(|k| (*k, None)).collect();
+    // the words Gleam reserves although glas' lexer has no keyword token for them
+    v.extend(["auto", "delegate", "derive", "echo", "else", "implement", "macro", "test"].iter().map(|k| (*k, None)));
     v.extend([
         ("a", Some(Class::Lower)),
         ("a_1", Some(Class::Lower)),
@@ -730,7 +732,7 @@ pub fn run_c08(tier: Tier) -> i32 {
         }
     }
     }
-    l.bound = format!("2 variants of the probe module (with / without type imports `import errs.{{type Ok, type Error, type Nil, type True, type False}}` of types whose constructors are spelled like the built-in values) x {} symbol probes (kinds x definition/use sites x local / other local package / build-packages package; all five built-in constructors) x {} candidate names (15 keywords, valid and malformed identifiers of both cases, literals, operators, empty/space/multi-token, non-ASCII)", probes().len(), cands.len());
+    l.bound = format!("2 variants of the probe module (with / without type imports `import errs.{{type Ok, type Error, type Nil, type True, type False}}` of types whose constructors are spelled like the built-in values) x {} symbol probes (kinds x definition/use sites x local / other local package / build-packages package; all five built-in constructors) x {} candidate names (15 keywords of the lexer and the 8 further words Gleam reserves, valid and malformed identifiers of both cases, literals, operators, empty/space/multi-token, non-ASCII)", probes().len(), cands.len());
     rep.layer(l);
     {
         // at every identifier occurrence of the base workspaces and of the probe workspace:
